@@ -235,7 +235,7 @@ impl Check for C05 {
     }
     fn cases(&self, tier: Tier) -> u64 {
         match tier {
-            Tier::Quick => 40_000,
+            Tier::Quick => 100_000,
             Tier::Thorough => 300_000,
         }
     }
